@@ -2,6 +2,7 @@ import Driver.Common
 import DryocVerif.Spec.Argon2
 import DryocVerif.Spec.X25519
 import DryocVerif.Model.PwhashStr
+import DryocVerif.Model.Argon2
 open DryocVerif
 namespace Driver.Pwhash
 open DryocVerif.Model.PwhashStr
@@ -21,15 +22,14 @@ def specPwhash (alg outlen ops mem : Nat) (pwd salt : Bytes) : Outcome Bytes :=
   else .ok (Spec.Argon2.argon2 alg pwd salt [] [] ops (mem / 1024) 1 outlen)
 
 def argon2ForStr (ty t m p : Nat) (pwd salt : Bytes) (outlen : Nat) : Outcome Bytes :=
-  if t < 1 ∨ m < 8 ∨ p ≠ 1 ∨ salt.length < 8 then .err
-  else .ok (Spec.Argon2.argon2 ty pwd salt [] [] t m p outlen)
+  Model.Argon2.argon2Hash ty t m p pwd salt none none outlen
 
 def handle (op : String) (args : List String) : Option Ans :=
   match op, args with
   | "pwhash", [alg, outlen, ops, mem, pwd, salt] =>
     match alg.toNat?, outlen.toNat?, ops.toNat?, mem.toNat?, ofHex pwd, ofHex salt with
     | some alg, some outlen, some ops, some mem, some pwd, some salt =>
-      some ("n/a", outBytes (specPwhash alg outlen ops mem pwd salt))
+      some (outBytes (Model.Argon2.cryptoPwhash outlen pwd salt ops mem alg), outBytes (specPwhash alg outlen ops mem pwd salt))
     | _, _, _, _, _, _ => none
   | "pwhash_keypair", [ops, mem, pwd, salt] =>
     match ops.toNat?, mem.toNat?, ofHex pwd, ofHex salt with
